@@ -67,6 +67,14 @@ def check_batch(np, torch, pe, dec_mod, engine, paths, C, style):
             bad.append(('standalone-greedy-is-collapse', 'GreedyDecoder %r, expected %r' % (g, want[n])))
         if g != got[n]:
             bad.append(('decoders-agree', 'GreedyDecoder %r vs greedy_decode_ctc %r' % (g, got[n])))
+        # "all score tensors": the raw (un-normalised) output of a network, every score far below zero, decoded with the normalisation
+        # guard switched off as the repository's own tests do - the arg-max path, hence the text, is the same
+        g_raw = dec_mod.GreedyDecoder(letters)(np.asarray(m, dtype=float) - 30.0, max_unnormalization=np.inf).best_hyp()
+        if g_raw != want[n]:
+            bad.append(('standalone-greedy-is-collapse', 'GreedyDecoder on the same scores shifted by -30 (raw network output): %r, expected %r' % (g_raw, want[n])))
+    raw = pe.greedy_decode_ctc(t.clone() - 30.0, chars)
+    if list(raw) != want:
+        bad.append(('engine-greedy-is-collapse', 'greedy_decode_ctc on the same scores shifted by -30: %r, expected %r' % (raw, want)))
     return bad
 
 
